@@ -150,8 +150,15 @@ def generate(rng, tier, k):
             u["rate"] = cfg["bank"]["rate"]
     if post:
         need = _min_len_for_frames(cfg)
+        one = _min_len_for_frames(cfg, 0)
+        only_linear = all(p["name"] in ("deltas",) for p in post)
         for u in corpus:
-            u["n"] = max(u["n"], need + rng.randrange(0, 200))
+            if only_linear and rng.random() < 0.25:
+                # exactly one or two frames: enough for deltas (edge padding), a boundary for "is there anything to process"
+                comp_ = configs.build(cfg)
+                u["n"] = int(comp_.frame_length // 2 + 1 + rng.choice((0, 1, comp_.frame_shift // 2, comp_.frame_shift)))
+            else:
+                u["n"] = max(u["n"], need + rng.randrange(0, 200))
     multi = any(u["channels"] > 1 for u in corpus)
     args = {"seed": seed}
     if multi:
